@@ -48,7 +48,8 @@ structure St where
   pc : Nat := 0
   /-- head = top of the stack -/
   stack : List W := []
-  memory : Array UInt8 := #[]
+  /-- `ByteArray` (not `Array UInt8`) so that the compiled driver handles 64 KiB memories quickly -/
+  memory : ByteArray := ByteArray.empty
   returnData : Array UInt8 := #[]
   /-- non-zero slots, keyed by `toNat` of the key -/
   storage : List (Nat × W) := []
@@ -75,6 +76,13 @@ def padRight (n : Nat) (bs : List UInt8) : List UInt8 :=
 
 def slice (a : Array UInt8) (off len : Nat) : List UInt8 := (a.extract off (off + len)).toList
 
+/-- `memory[off..off+len]` -/
+def mslice (m : ByteArray) (off len : Nat) : List UInt8 := (m.extract off (off + len)).toList
+
+def pushZeros : Nat → ByteArray → ByteArray
+  | 0, m => m
+  | n + 1, m => pushZeros n (m.push 0)
+
 /-! ## bytecode.rs: jump destination analysis -/
 
 def analyzeLoop (code : Array UInt8) : Nat → Nat → Array Bool → Array Bool
@@ -96,28 +104,28 @@ def validJumpdest (jd : Array Bool) (dst : Nat) : Bool := jd.getD dst false
 /-! ## memory.rs -/
 
 /-- `Memory::grow`: extend with zeros to the next multiple of 32 ≥ `newSize` -/
-def memGrow (m : Array UInt8) (newSize : Nat) : Array UInt8 :=
+def memGrow (m : ByteArray) (newSize : Nat) : ByteArray :=
   if newSize ≤ m.size then m
   else
     let aligned := if newSize % 32 > 0 then newSize + (32 - newSize % 32) else newSize
-    m ++ Array.replicate (aligned - m.size) 0
+    pushZeros (aligned - m.size) m
 
 /-- `get_memory_region`: error for sizes / offsets / ends beyond `u32::MAX`, `none` for size 0,
     otherwise grows the memory and returns `(offset, size)` -/
-def memRegion (m : Array UInt8) (off size : W) : Except Halt (Array UInt8 × Option (Nat × Nat)) :=
+def memRegion (m : ByteArray) (off size : W) : Except Halt (ByteArray × Option (Nat × Nat)) :=
   if size.toNat > u32Max then .error .illegalMemoryAccess
   else if size.toNat = 0 then .ok (m, none)
   else if off.toNat > u32Max then .error .illegalMemoryAccess
   else if off.toNat + size.toNat > u32Max then .error .illegalMemoryAccess
   else .ok (memGrow m (off.toNat + size.toNat), some (off.toNat, size.toNat))
 
-def writeBytes (m : Array UInt8) (off : Nat) : List UInt8 → Array UInt8
+def writeBytes (m : ByteArray) (off : Nat) : List UInt8 → ByteArray
   | [] => m
-  | b :: t => writeBytes (m.setIfInBounds off b) (off + 1) t
+  | b :: t => writeBytes (m.set! off b) (off + 1) t
 
 /-- `copy_to_memory` -/
-def copyToMemory (m : Array UInt8) (destOff destSize dataOff : W) (data : Array UInt8)
-    (zeroFill : Bool) : Except Halt (Array UInt8) :=
+def copyToMemory (m : ByteArray) (destOff destSize dataOff : W) (data : Array UInt8)
+    (zeroFill : Bool) : Except Halt ByteArray :=
   match memRegion m destOff destSize with
   | .error e => .error e
   | .ok (m, none) => .ok m
@@ -197,7 +205,7 @@ def exitWith (env : Env) (kind : Outcome) (s : St) : Except Halt St :=
     | .error e => .error e
     | .ok (m, none) => .ok { s with stack := rest, memory := m, output := some (kind, #[]), pc := env.code.size }
     | .ok (m, some (o, n)) =>
-      .ok { s with stack := rest, memory := m, output := some (kind, m.extract o (o + n)), pc := env.code.size }
+      .ok { s with stack := rest, memory := m, output := some (kind, (m.extract o (o + n)).data), pc := env.code.size }
   | _ => .error .stackUnderflow
 
 def jumpTo (env : Env) (dest : W) (s : St) (rest : List W) : Except Halt St :=
@@ -244,7 +252,7 @@ def step (env : Env) (s : St) : Except Halt St :=
       | .ok (m, region) =>
         let input := match region with
           | none => []
-          | some (o, n) => slice m o n
+          | some (o, n) => mslice m o n
         match env.hash input with
         | none => .error (.needHash input)
         | some h => .ok { s with stack := h :: rest, memory := m, pc := s.pc + 1 }
@@ -297,7 +305,7 @@ def step (env : Env) (s : St) : Except Halt St :=
       | .error e => .error e
       | .ok (m, none) => .ok { s with stack := 0#256 :: rest, memory := m, pc := s.pc + 1 }
       | .ok (m, some (o, n)) =>
-        .ok { s with stack := bytesToWord (slice m o n) :: rest, memory := m, pc := s.pc + 1 }
+        .ok { s with stack := bytesToWord (mslice m o n) :: rest, memory := m, pc := s.pc + 1 }
     | _ => .error .stackUnderflow
   | 0x52 => -- MSTORE
     match s.stack with
@@ -315,7 +323,7 @@ def step (env : Env) (s : St) : Except Halt St :=
       | .error e => .error e
       | .ok (m, none) => .ok { s with stack := rest, memory := m, pc := s.pc + 1 }
       | .ok (m, some (o, _)) =>
-        .ok { s with stack := rest, memory := m.setIfInBounds o (UInt8.ofNat (v.toNat % 2 ^ 32 % 256)),
+        .ok { s with stack := rest, memory := m.set! o (UInt8.ofNat (v.toNat % 2 ^ 32 % 256)),
                      pc := s.pc + 1 }
     | _ => .error .stackUnderflow
   | 0x54 => -- SLOAD
@@ -363,7 +371,7 @@ def step (env : Env) (s : St) : Except Halt St :=
           | .error e => .error e
           | .ok (m, none) => .ok { s with stack := rest, memory := m, pc := s.pc + 1 }
           | .ok (m, some (d, _)) =>
-            .ok { s with stack := rest, memory := writeBytes m d (slice m so n), pc := s.pc + 1 }
+            .ok { s with stack := rest, memory := writeBytes m d (mslice m so n), pc := s.pc + 1 }
     | _ => .error .stackUnderflow
   | 0xf3 => exitWith env .ret s
   | 0xfd => exitWith env .revert s
@@ -378,7 +386,7 @@ def step (env : Env) (s : St) : Except Halt St :=
         | .ok (m, region) =>
           let input : Array UInt8 := match region with
             | none => #[]
-            | some (o, n) => m.extract o (o + n)
+            | some (o, n) => (m.extract o (o + n)).data
           match copyToMemory m ooff osz 0#256 input false with
           | .error e => .error e
           | .ok m => .ok { s with stack := 1#256 :: rest, memory := m, returnData := input, pc := s.pc + 1 }
